@@ -87,7 +87,7 @@ static void run_reserved(uint64_t idx, pv_rng* rng) {
 }
 
 /* ---------------------------------------------------------------- random / boundary seeds */
-static uint64_t n_random(void) { return pv_scaled(60000, 1500000); }
+static uint64_t n_random(void) { return pv_scaled(60000, 15000000); }
 static void run_random(uint64_t idx, pv_rng* rng) {
     pv_mseed m; pv_gen_mseed(rng, 7, true, &m);
     polyseed_data* s = pv_seed_from_model(&m);
@@ -102,7 +102,7 @@ static void run_random(uint64_t idx, pv_rng* rng) {
 }
 
 /* ---------------------------------------------------------------- purity: different histories, same phrase */
-static uint64_t n_purity(void) { return pv_scaled(15000, 400000); }
+static uint64_t n_purity(void) { return pv_scaled(15000, 4000000); }
 static void run_purity(uint64_t idx, pv_rng* rng) {
     pv_mseed m; pv_gen_mseed(rng, 7, false, &m);
     unsigned coin = pv_gen_coin(rng);
@@ -145,7 +145,7 @@ static void run_purity(uint64_t idx, pv_rng* rng) {
 }
 
 /* ---------------------------------------------------------------- phrases of every length class, up to the longest each language can produce */
-static uint64_t n_lengths(void) { return (uint64_t)pv_nlangs * pv_scaled(400, 8000); }
+static uint64_t n_lengths(void) { return (uint64_t)pv_nlangs * pv_scaled(400, 60000); }
 static void run_lengths(uint64_t idx, pv_rng* rng) {
     pv_mlang* L = &pv_langs[idx % (uint64_t)pv_nlangs];
     if (!L->lib) return;
